@@ -1,0 +1,54 @@
+//go:build verif
+
+// Read-only accessor of the BM25 index state used by the verification harness in
+// /verif (build tag "verif"). Nothing here is compiled into normal builds.
+
+package comet
+
+// VerifBM25State is a deep copy of every incremental field of BM25SearchIndex.
+type VerifBM25State struct {
+	NumDocs     uint32
+	TotalTokens int
+	AvgDocLen   float64
+	DocLengths  map[uint32]int
+	DocTokens   map[uint32][]string
+	DF          map[string]int            // cardinality of postings[term]
+	Postings    map[string][]uint32       // postings[term] as a sorted id list
+	TF          map[string]map[uint32]int // tf[term][doc]
+	Deleted     []uint32                  // soft-deleted ids
+}
+
+// VerifState returns a snapshot of the index state under the read lock.
+func (ix *BM25SearchIndex) VerifState() VerifBM25State {
+	ix.mu.RLock()
+	defer ix.mu.RUnlock()
+	st := VerifBM25State{
+		NumDocs:     ix.numDocs.Load(),
+		TotalTokens: ix.totalTokens,
+		AvgDocLen:   ix.avgDocLen,
+		DocLengths:  make(map[uint32]int, len(ix.docLengths)),
+		DocTokens:   make(map[uint32][]string, len(ix.docTokens)),
+		DF:          make(map[string]int, len(ix.postings)),
+		Postings:    make(map[string][]uint32, len(ix.postings)),
+		TF:          make(map[string]map[uint32]int, len(ix.tf)),
+		Deleted:     ix.deletedDocs.ToArray(),
+	}
+	for id, l := range ix.docLengths {
+		st.DocLengths[id] = l
+	}
+	for id, toks := range ix.docTokens {
+		st.DocTokens[id] = append([]string{}, toks...)
+	}
+	for t, bm := range ix.postings {
+		st.DF[t] = int(bm.GetCardinality())
+		st.Postings[t] = bm.ToArray()
+	}
+	for t, m := range ix.tf {
+		c := make(map[uint32]int, len(m))
+		for id, n := range m {
+			c[id] = n
+		}
+		st.TF[t] = c
+	}
+	return st
+}
